@@ -86,8 +86,17 @@ def rule_rt4(A: Analysis, rep):
     rep.check(kws.get("start_new_session") == "True", "RT4", "own session / process group", sp, "the task is a process-group leader (killpg reaches its children)",
               "Popen(start_new_session=%s): SIGTERM to the group would not reach the task's children" % kws.get("start_new_session"))
     init = A.fn(RTE + "__init__")
-    st = {norm(s.targets[0]): norm(s.value) for s in walk_local(init.node) if isinstance(s, ast.Assign) and isinstance(s.targets[0], ast.Attribute)}
-    rep.check(st.get("self._run") == "' '.join([run, self._args.serialize_cmdline(), self._options.serialize_cmdline()])" and st.get("self._args") == "args" and st.get("self._options") == "options",
+    st = {norm(s.targets[0]): s.value for s in walk_local(init.node) if isinstance(s, ast.Assign) and isinstance(s.targets[0], ast.Attribute)}
+    run_v = A.expand(st["self._run"], init, stop=init.params) if "self._run" in st else None
+    # `' '.join([run, <args>.serialize_cmdline(), <options>.serialize_cmdline()])` — list or tuple, parts through locals;
+    # the fields and the constructor parameters they were set from are the same objects
+    parts = None
+    if isinstance(run_v, ast.Call) and norm(run_v.func) == "' '.join" and len(run_v.args) == 1 and isinstance(run_v.args[0], (ast.List, ast.Tuple)):
+        alias = {"self._args": "args", "self._options": "options"}
+        parts = [norm(x) for x in run_v.args[0].elts]
+        parts = [p_.replace("self._args.", "args.").replace("self._options.", "options.") if all(k in st and norm(st[k]) == v for k, v in alias.items()) else p_ for p_ in parts]
+    st = {k: norm(v) for k, v in st.items()}
+    rep.check(parts == ["run", "args.serialize_cmdline()", "options.serialize_cmdline()"] and st.get("self._args") == "args" and st.get("self._options") == "options",
               "RT4", "run, then args, then options", init.node, "", "the command line is assembled as `%s`" % st.get("self._run"))
     # serialisers
     sa = A.fn("utils.run_arguments.RunArguments.serialize_cmdline")
@@ -119,11 +128,12 @@ def rule_rt4(A: Analysis, rep):
         rep.check(not diff and ok_out, "RT4", "planner passes the task's own run/args/options/paths", call, "", "RunTaskExecutable constructed with %s, output_path=%s" % (diff, opv))
     gw = A.fn("task_types.base.TaskType.get_working_path")
     r = [x for x in walk_local(gw.node) if isinstance(x, ast.Return)]
-    rep.check(len(r) == 1 and norm(r[0].value) == "pathlib.Path(%s.project_root, self._identifier.path)" % gw.params[1] and
+    from ..analysis import pathparts
+    rep.check(len(r) == 1 and pathparts(A.expand(r[0].value, gw, stop=[gw.params[1]])) == ["%s.project_root" % gw.params[1], "self._identifier.path"] and
               len(A.prog.overriders("conductor.task_types.base.TaskType", "get_working_path")) == 1, "RT4", "working directory = directory of the task's COND file", gw.node,
               "project_root / identifier.path", "get_working_path is `%s`" % (norm(r[0].value) if r else "?"))
     rs = A.fn("task_types.run._RunSubprocess.__init__")
-    st = {norm(s.targets[0]): norm(s.value) for s in walk_local(rs.node) if isinstance(s, ast.Assign) and isinstance(s.targets[0], ast.Attribute)}
+    st = {norm(s.targets[0]): A.xtext(s.value, rs, stop=rs.params) for s in walk_local(rs.node) if isinstance(s, ast.Assign) and isinstance(s.targets[0], ast.Attribute)}
     rep.check(st.get("self._args") == "RunArguments.from_raw(identifier, args)" and st.get("self._options") == "RunOptions.from_raw(identifier, options)" and st.get("self._raw_run") == "run",
               "RT4", "task keeps declared run/args/options", rs.node, "", "_RunSubprocess.__init__ stores %s" % {k: st.get(k) for k in ("self._args", "self._options", "self._raw_run")})
     for prop, field in (("raw_run", "_raw_run"), ("args", "_args"), ("options", "_options")):
@@ -235,7 +245,7 @@ def rule_dep1(A: Analysis, rep):
             gs = A.path_guards(g, be, apps[0], fi)
             src = A.single_def_value(fi, pv)
             ok = gs == [frozenset({("none(%s)" % pv, False)})] and src is not None and \
-                norm(src) == "%s.task_index.get_task(%s).get_output_path(%s)" % (ctx, norm(l.target), ctx)
+                A.xtext(src, fi, stop=[norm(l.target), ctx]) == "%s.task_index.get_task(%s).get_output_path(%s)" % (ctx, norm(l.target), ctx)
             rets = [x for x in walk_local(fi.node) if isinstance(x, ast.Return)]
             ok = ok and len(rets) == 1 and norm(rets[0].value) == lst
             det = "append guard [%s], source `%s`" % (" | ".join(fmt_conj(c) for c in gs), norm(src) if src is not None else "?")
